@@ -36,7 +36,8 @@ pub enum HostileOp {
     Rewrap { ev: EvRef, mode: u8, g2: usize },
     /// commit built directly with openmls. kind: 0 remove(victim) 1 add(outsider) 2 group data
     /// (nostr id byte flip) 3 pure self-update 4 self-update with changed identity (victim's)
-    /// 5 commit to pending proposals 6 group data (name byte flip)
+    /// 5 commit to pending proposals 6 group data (name byte flip) 7 self-promotion to admin
+    /// 8 / 9 own Remove(victim) / Add(outsider) proposal committed by reference with an update path
     CraftedCommit { g: usize, kind: u8, victim: usize },
     /// proposal built directly with openmls. kind: 0 add(outsider) 1 remove(victim) 2 group data
     CraftedProposal { g: usize, kind: u8, victim: usize },
@@ -416,14 +417,30 @@ pub fn exec(w: &mut World, step: &Step, h: HostileOp) -> Outcome {
             // outsider key package for adds
             let members = w.members_of(node, g);
             let outsider_kp = w.nodes.iter().find(|n| !members.contains(&n.idx) && !n.key_packages.is_empty()).and_then(|n| n.key_packages.last().cloned());
-            let r: Result<(Event, Option<String>), String> = with_mdk!(w.nodes[node].mdk(), m => (|| {
+            let r: Result<(Event, Option<String>, Option<Event>), String> = with_mdk!(w.nodes[node].mdk(), m => (|| {
                 let mut grp = m.load_mls_group(&gid).map_err(|e| e.to_string())?.ok_or("no mls group")?;
                 if grp.pending_commit().is_some() {
                     return Err("attacker has a pending commit".into());
                 }
                 let signer = signer_of(m, &grp)?;
+                let mut extra: Option<MlsMessageOut> = None;
                 let msg: MlsMessageOut = if is_commit {
                     match kind {
+                        8 | 9 => {
+                            // a proposal of its own, then a commit that covers it BY REFERENCE and
+                            // carries an update path: dressed up as a self-update
+                            let p = if kind == 8 {
+                                let idx = victim_pk.and_then(|pk| leaf_of(&grp, m, &pk)).ok_or("victim not a member")?;
+                                if idx == grp.own_leaf_index() { return Err("self".into()); }
+                                grp.propose_remove_member(&m.provider, &signer, idx).map_err(|e| e.to_string())?.0
+                            } else {
+                                let kp_ev = outsider_kp.clone().ok_or("no outsider key package")?;
+                                let kp = m.parse_key_package(&kp_ev).map_err(|e| e.to_string())?;
+                                grp.propose_add_member(&m.provider, &signer, &kp).map_err(|e| e.to_string())?.0
+                            };
+                            extra = Some(p);
+                            grp.commit_to_pending_proposals(&m.provider, &signer).map_err(|e| e.to_string())?.0
+                        }
                         0 => {
                             let idx = victim_pk.and_then(|pk| leaf_of(&grp, m, &pk)).ok_or("victim not a member")?;
                             if idx == grp.own_leaf_index() { return Err("self".into()); }
@@ -476,18 +493,30 @@ pub fn exec(w: &mut World, step: &Step, h: HostileOp) -> Outcome {
                 let result_state = grp.pending_commit().and_then(|c| c.epoch_authenticator().map(|a| hex::encode(a.as_slice())));
                 let bytes = msg.tls_serialize_detached().map_err(|e| e.to_string())?;
                 let ev = wrap(m, &gid, &bytes, None, None, None)?;
+                let extra_ev = match extra {
+                    Some(p) => Some(wrap(m, &gid, &p.tls_serialize_detached().map_err(|e| e.to_string())?, None, None, None)?),
+                    None => None,
+                };
                 // the attacker stays where it is: drop the pending commit / own proposal
                 if is_commit {
                     let _ = grp.clear_pending_commit(m.provider.storage());
+                    if extra_ev.is_some() {
+                        let _ = grp.clear_pending_proposals(m.provider.storage());
+                    }
                 } else {
                     let _ = grp.clear_pending_proposals(m.provider.storage());
                 }
-                Ok((ev, result_state))
+                Ok((ev, result_state, extra_ev))
             })());
             match r {
-                Ok((ev, rs)) => {
+                Ok((ev, rs, extra_ev)) => {
+                    if let Some(pev) = extra_ev {
+                        let pre = w.node_state(node, g);
+                        let (epoch, parent) = pre.unwrap_or((0, String::new()));
+                        w.publish_event(PubEvent { origin: EvRef(step.id, 1), event: pev, kind: EvKind::Hostile, creator: node, g, epoch, parent_state: parent, result_state: None, desc: format!("crafted proposal {} by n{node} admin={} victim=n{victim} (committed by reference in the same step)", if kind == 8 { "prop_remove" } else { "prop_add" }, w.is_admin(node, g)), msg: None, refs_proposals: false });
+                    }
                     let admin = w.is_admin(node, g);
-                    let what = if is_commit { ["remove", "add", "groupdata_id", "selfupdate", "identity_change", "commit_pending", "groupdata_name", "groupdata_self_promotion"][kind.min(7) as usize] } else { ["prop_add", "prop_remove", "prop_groupdata"][kind.min(2) as usize] };
+                    let what = if is_commit { ["remove", "add", "groupdata_id", "selfupdate", "identity_change", "commit_pending", "groupdata_name", "groupdata_self_promotion", "remove_by_reference", "add_by_reference"][kind.min(9) as usize] } else { ["prop_add", "prop_remove", "prop_groupdata"][kind.min(2) as usize] };
                     let r = publish(w, step, node, g, ev, EvKind::Hostile, format!("crafted {} {what} by n{node} admin={admin} victim=n{victim}", if is_commit { "commit" } else { "proposal" }), rs);
                     let mut out = o("ok", format!("crafted {what}"));
                     out.created = vec![r];
